@@ -16,6 +16,7 @@ import (
 	"context"
 	"encoding/json"
 	"errors"
+	"sort"
 
 	. "github.com/Comcast/sheens/match"
 )
@@ -641,8 +642,17 @@ func (s *Spec) Walk(ctx context.Context, st *State, pendings []interface{}, c *C
 
 	walked := newWalked(c.Limit)
 
+	// Try the breakpoints in the order of their ids, so that the
+	// same walk always reports the same one when several hold.
+	bpids := make([]string, 0, len(c.Breakpoints))
+	for id := range c.Breakpoints {
+		bpids = append(bpids, id)
+	}
+	sort.Strings(bpids)
+
 	for i := 0; i < c.Limit; i++ {
-		for id, breakpoint := range c.Breakpoints {
+		for _, id := range bpids {
+			breakpoint := c.Breakpoints[id]
 			if breakpoint(ctx, st) {
 				walked.StoppedBecause = BreakpointReached
 				walked.BreakpointId = id
